@@ -1,7 +1,7 @@
 from .token import Token
 from typing import Any
 from abc import abstractmethod
-from ...errors import InvalidArgumentsError
+from ...errors import InvalidArgumentsError, MismatchError, DivideByZeroError
 from ...environments.environment import Environment
 
 
@@ -37,7 +37,16 @@ class Operator(Token):
                 on parse tree creation. This error cannot and should 
                 not occur under any circumstances""",
             )
-        return self.solve_operand(self.left.solve(), self.right.solve())
+        left, right = self.left.solve(), self.right.solve()
+        try:
+            return self.solve_operand(left, right)
+        except ZeroDivisionError:
+            raise DivideByZeroError(self.stack)
+        except (TypeError, ArithmeticError):
+            raise MismatchError(
+                self.stack,
+                f"Operand {self.value} is not supported for '{left}' and '{right}'",
+            )
 
     @abstractmethod
     def solve_operand(self, left: Any, right: Any) -> Any:
